@@ -39,6 +39,13 @@ impl HeaderField {
 //@spec
     ensures r@ == self.name(),
 //@endfn
+//@fn from_bytes ret r props C04,C19
+//@spec
+    ensures match r {
+        Ok(f) => all_ascii(bytes_of(bytes)) && f.name() == chars_of(bytes),
+        Err(_) => !all_ascii(bytes_of(bytes)),
+    },
+//@endfn
 //@fn equiv ret r props C03,C10,C12,C16,C18
 //@spec
     // O-EQUIV: header names are compared ASCII case-insensitively (this is the contract assumed by U-NEWREQ / U-CONN)
@@ -109,6 +116,16 @@ impl HeaderField {
 //@closure ~parse_http_version(w)~ |w: &str| -> (o: Option<HTTPVersion>) ensures match o { Some(v) => version_of(v, w@), None => true }
 //@closure ~Some((method, path?, version?))~ |method: Method| -> (o: Option<(Method, String, HTTPVersion)>) ensures o == (if path is Some && version is Some { Some((method, path->Some_0, version->Some_0)) } else { None })
 //@endfn
+
+//@impl src/common.rs "Header"
+//@fn from_bytes ret r props C04,C19
+//@spec
+    // (the contract U-RESP uses for the headers raw_print builds: succeeds exactly on ASCII input and keeps the text)
+    ensures
+        (r is Ok) == (all_ascii(bytes_of(header)) && all_ascii(bytes_of(value))),
+        r is Ok ==> r->Ok_0.field.name() == chars_of(header) && r->Ok_0.value@ == chars_of(value),
+//@endfn
+//@endimpl
 
 //@impl src/common.rs "FromStr for Header"
 //@fn from_str ret r props C02,C16
